@@ -312,7 +312,7 @@ class DB:
         res = DB()
         db = {}
         for pkg in package_iter:
-            db[pkg] = self.db[pkg]
+            db[pkg] = self.db[pkg].copy()
         res.db = db
         res.rdb = reverse(db)
         return res
